@@ -138,3 +138,29 @@ package sm4
 //@ ensures ok: !nonnil(result1) && result0 != nil
 //@ ensures nokeyref: !reaches(result0, key)
 //@ assigns nothing
+
+// ---------------------------------------------------------------------------------------------
+// Write-effect contracts (property C17): parameters not listed under `writes` are read-only;
+// `immutable` types are never written through a method receiver. Checked by `govc eff`.
+// ---------------------------------------------------------------------------------------------
+//@ func type sm4.sm4Cipher#eff
+//@ immutable
+//@ func type sm4.sm4CipherAsm#eff
+//@ immutable
+//@ func type sm4.sm4GcmAsm#eff
+//@ immutable
+
+//@ func sm4.NewCipher#eff
+//@ func (*sm4.sm4Cipher).Encrypt#eff
+//@ writes dst
+//@ func (*sm4.sm4Cipher).Decrypt#eff
+//@ writes dst
+//@ func (*sm4.sm4CipherAsm).Encrypt#eff
+//@ writes dst
+//@ func (*sm4.sm4CipherAsm).Decrypt#eff
+//@ writes dst
+//@ func (*sm4.sm4CipherAsm).NewGCM#eff
+//@ func (*sm4.sm4GcmAsm).Seal#eff
+//@ writes dst
+//@ func (*sm4.sm4GcmAsm).Open#eff
+//@ writes dst
